@@ -52,6 +52,8 @@ def pre_info(E, ncontrol):
     E.ctx.assume(z3.And(owner.proto == 0, worker.proto == 0, ben.proto == 0))
     # owners / workers / beneficiaries are user accounts: ids below 100 are reserved for the singleton actors
     E.ctx.assume(z3.And(owner.key >= 100, worker.key >= 100, ben.key >= 100))
+    if 'rt' in E.ctx.env:
+        E.ctx.assume(E.ctx.env['rt'].receiver.key >= 100)      # the miner itself is not a singleton actor either
     po_some, po = opt_view(E, fget(E, info, MI['pending_owner_address'], OPT_ADDR), ADDR)
     E.ctx.assume(z3.Implies(po_some, po.proto == 0))
     # a pending owner equal to the owner is never stored (cleared as a no-op change)
@@ -408,4 +410,60 @@ def build(tier):
                         descr='methods that save MinerInfo but are not handover methods leave all control fields unchanged', bounds='one call', max_paths=5000))
     O.append(Obligation('miner.change_multiaddresses (frame)', std_run('change_multiaddresses', 'ChangeMultiaddrsParams', 1, lambda E, p: StructV('types::ChangeMultiaddrsParams', {0: VecV([LazyV('maddr0', 'fvm_ipld_encoding::BytesDe')], 'Vec<BytesDe>')})), props_frame,
                         descr='methods that save MinerInfo but are not handover methods leave all control fields unchanged', bounds='one call; multiaddr list length 1', max_paths=5000))
+    return O
+
+
+# ---------------------------------------------------------------------------------------
+# native replay through the "miner" adapter
+
+def _scn(method, params_fn=None, ret_of=None):
+    from .miner_common import miner_scenario
+    return miner_scenario(method, params_fn, ret_of)
+
+
+def _p_owner(E, res, m):
+    from .C12 import _addr_json
+    return {'new_owner': _addr_json(m, fget(E, res.ctx.env['params'], 0, ADDR))}
+
+
+def _p_worker(E, res, m):
+    from .C12 import _addr_json
+    pa = res.ctx.env['params']
+    return {'new_worker': _addr_json(m, fget(E, pa, 0, ADDR)),
+            'new_control_addresses': [_addr_json(m, x) for x in E.deref(fget(E, pa, 1, 'Vec<Address>')).items]}
+
+
+def _p_ben(E, res, m):
+    from .C12 import _addr_json
+    CB = Fields('actors/miner/src/types.rs', 'ChangeBeneficiaryParams')
+    pa = res.ctx.env['params']
+    return {'new_beneficiary': _addr_json(m, fget(E, pa, CB['new_beneficiary'], ADDR)),
+            'new_quota': str(ev(m, fget(E, pa, CB['new_quota'], TOKEN).v)), 'new_expiration': ev(m, fget(E, pa, CB['new_expiration'], 'i64').v)}
+
+
+def _pubkey_ret(E, res, m):
+    def ret_of(i, s):
+        a = find_mat(res.ctx, 'rt.send[%d].ret.Some.0.as<' % i, '>')
+        if isinstance(a, AddrV):
+            p = ev(m, a.proto)
+            return {'address': {{1: 'secp', 2: 'actor', 3: 'bls', 4: 'actor'}.get(p, 'bls'): 7} if p != 0 else ev(m, a.key)}
+        return {'address': {'bls': 7}}
+    return ret_of
+
+
+_SCN = {'miner.change_owner_address': lambda: _scn('ChangeOwnerAddress', _p_owner),
+        'miner.change_worker_address': lambda: _scn('ChangeWorkerAddress', _p_worker, _pubkey_ret),
+        'miner.confirm_change_worker_address': lambda: _scn('ConfirmChangeWorkerAddress'),
+        'miner.change_beneficiary': lambda: _scn('ChangeBeneficiary', _p_ben),
+        'miner.change_peer_id (frame)': lambda: _scn('ChangePeerID', lambda E, res, m: {'new_id_hex': ''})}
+
+_build0 = build
+
+
+def build(tier):  # noqa: F811
+    O = _build0(tier)
+    for o in O:
+        for k, f in _SCN.items():
+            if o.name.startswith(k):
+                o.scenario = f()
     return O
